@@ -11,7 +11,7 @@ import tempfile
 
 HERE = os.path.dirname(os.path.dirname(os.path.abspath(__file__)))
 SEEDED = os.path.join(HERE, "seeded")
-OWN = {"C12-B": "C19", "C03-I": "C10"}  # caught by the check that owns the class
+OWN = {"C12-B": "C19", "C03-I": "C10", "C10-J": "C13"}  # caught by the check that owns the class
 
 
 def one(sid, seed):
